@@ -205,6 +205,21 @@ def check_maps(ctx, c):
     ctx.event("nan_probes", probe.size)
     if not np.array_equal(np.isnan(yp), want_nan) or not np.array_equal(np.isnan(dp), want_nan):
         ctx.fail({"what": "nan/out-of-range-handling(normalize)", "norm": name}, f"{name}{p}: probe {probe} -> {yp} / {dp}")
+    # scalar and 0-d input behave like arrays (NaN for NaN / out-of-range, value otherwise)
+    for sv, wn in zip(probe.tolist(), want_nan.tolist()):
+        for form in (float(sv), np.array(float(sv))):
+            with warnings.catch_warnings():
+                warnings.simplefilter("ignore")
+                with np.errstate(all="ignore"):
+                    try:
+                        ys = np.asarray(norm.normalize(form), dtype=float)
+                    except Exception as exc:
+                        ctx.fail({"what": "scalar-input-raises", "norm": name}, f"{name}{p}.normalize({sv!r}) raised {type(exc).__name__}: {exc}")
+                        return
+            ctx.event("nan_probes")
+            if ys.size != 1 or bool(np.isnan(ys.ravel()[0])) != wn:
+                ctx.fail({"what": "scalar-nan/out-of-range-handling", "norm": name}, f"{name}{p}.normalize({sv!r}) -> {ys!r}")
+                return
     ylo, yhi = onorm.y_range(name, p)
     if name in ("BoxCox", "BoxCoxShift", "Manly") and (ylo > -math.inf or yhi < math.inf) and abs(lam) > 1e-6:
         edge = ylo if ylo > -math.inf else yhi
@@ -217,6 +232,18 @@ def check_maps(ctx, c):
         want = np.array([True, True, True, False])
         if not np.array_equal(np.isnan(xb), want):
             ctx.fail({"what": "nan/out-of-range-handling(denormalize)", "norm": name}, f"{name}{p}: y {yprobe} -> {xb}")
+        for sv, wn in zip(yprobe.tolist(), want.tolist()):
+            with warnings.catch_warnings():
+                warnings.simplefilter("ignore")
+                with np.errstate(all="ignore"):
+                    try:
+                        xs_ = np.asarray(norm.denormalize(float(sv)), dtype=float)
+                    except Exception as exc:
+                        ctx.fail({"what": "scalar-input-raises", "norm": name}, f"{name}{p}.denormalize({sv!r}) raised {type(exc).__name__}: {exc}")
+                        return
+            if xs_.size != 1 or bool(np.isnan(xs_.ravel()[0])) != wn:
+                ctx.fail({"what": "scalar-nan/out-of-range-handling", "norm": name}, f"{name}{p}.denormalize({sv!r}) -> {xs_!r}")
+                return
 
 
 def _zsample(name, p, rng, n, sd):
